@@ -49,4 +49,6 @@ def run(index, tier="quick", seed=0) -> Result:
         res.bad("IN-5", "ConvexSpheropolyhedron.is_inside", f"{fn.file}:{fn.lineno}",
                 f"rounded region not covered: comparisons with the rounding radius found for {kinds} "
                 f"(need face extrusion [plane distance], edge cylinders and vertex caps [norms])")
+    from ..parallel import report as _copy1
+    _copy1(res, index, lambda f: f['top'] in ('is_inside', '_point_plane_distances') and f['cls'] in ('Polyhedron', 'ConvexPolyhedron', 'Sphere', 'Ellipsoid', 'ConvexSpheropolyhedron'))
     return res
